@@ -24,14 +24,20 @@ impl StarkProof {
             n_interaction_columns.into(),
         )?;
 
+        #[cfg(swiftness_verif)]
+        swiftness_transcript::verif::ev("st.config_ok").emit();
         // Validate the public input.
         let stark_domains =
             StarkDomains::new(self.config.log_trace_domain_size, self.config.log_n_cosets);
 
         Layout::validate_public_input(&self.public_input, &stark_domains)?;
 
+        #[cfg(swiftness_verif)]
+        swiftness_transcript::verif::ev("st.pi_ok").emit();
         // Compute the initial hash seed for the Fiat-Shamir transcript.
         let digest = self.public_input.get_hash(self.config.n_verifier_friendly_commitment_layers);
+        #[cfg(swiftness_verif)]
+        swiftness_transcript::verif::ev("st.seed").f("digest", &digest).emit();
         // Construct the transcript.
         let mut transcript = Transcript::new(digest);
 
@@ -44,6 +50,8 @@ impl StarkProof {
             &stark_domains,
         )?;
 
+        #[cfg(swiftness_verif)]
+        swiftness_transcript::verif::ev("st.commit_ok").emit();
         // Generate queries.
         let queries = generate_queries(
             &mut transcript,
@@ -62,6 +70,8 @@ impl StarkProof {
             &stark_domains,
         )?;
 
+        #[cfg(swiftness_verif)]
+        swiftness_transcript::verif::ev("st.verify_ok").emit();
         Ok(Layout::verify_public_input(&self.public_input)?)
     }
 }
